@@ -11,6 +11,8 @@ import Rbacx.Model.PyLib
   `set`/`frozenset` do not occur).  Where a case is deliberately not represented the result is `.raised "NotRepresented"`,
   a class CPython never raises, so that the differential run (`translated_vs_python`, harness/props/c04.py) would show it.
   Statements are sequenced with `bind` (left to right, the first exception wins), exactly as CPython evaluates them.
+  Also the target of the whole-function translation of the two reference evaluators (`policy.evaluate`, `policyset.decide` /
+  `_decide_single`; C02): `lowerE`, `dictE`, `forLoop` (several carried variables, `break` / `continue`), `tryBind`.
 -/
 namespace Rbacx.PyE
 open PyVal
@@ -33,10 +35,13 @@ def raise {α : Type} (cls : String) : Except CondErr α := .error (excOf cls)
 def outOfFuel {α : Type} : Except CondErr α := .error (.raised "OutOfFuel")
 
 /-- does `except C1, C2, …` catch the exception?  `Exception` catches everything raised here; otherwise by class name
-    (the translator accepts only `Exception`, `ConditionTypeError` and leaf builtin classes in a handler) -/
+    (the translator accepts only `Exception`, `ConditionTypeError` and leaf builtin classes in a handler).  A `ConditionTypeError` is
+    `.typeMismatch` and nothing else: `.raised "ConditionTypeError"` is not a value any translated statement produces (`raise
+    ConditionTypeError(…)` is `excOf`'s `.typeMismatch`), and it is not what the handler name `ConditionTypeError` stands for — the
+    model's `condOutcome` lets every `.raised cls` through, whatever the text of `cls` -/
 def catches (classes : List String) : CondErr → Bool
   | .typeMismatch => classes.contains "Exception" || classes.contains "ConditionTypeError"
-  | .raised c => classes.contains "Exception" || classes.contains c
+  | .raised c => classes.contains "Exception" || (c != "ConditionTypeError" && classes.contains c)
 
 /-- `try: <body> except (C1, …): <handler>` where body and handler both end in `return`/`raise` on every path -/
 def tryExcept (body : Res) (classes : List String) (handler : Res) : Res :=
@@ -203,6 +208,45 @@ def anyE (xs : List PyVal) (f : PyVal → Res) : Res :=
   match xs with
   | [] => .ok (.bool false)
   | x :: rest => bind (f x) fun v => if v.truthy then .ok (.bool true) else anyE rest f
+
+/-- `s.lower()`: AttributeError when `s` is not a str (no other JSON value has `.lower`); ASCII letters only, as the model's
+    `lowerField` (algorithm and effect names) -/
+def lowerE : PyVal → Res
+  | .str s => .ok (.str (asciiLower s))
+  | _ => .error (.raised "AttributeError")
+
+/-- `dict(x)`: a shallow copy of a dict (values, not references: nobody else holds the copy); TypeError for a value that cannot be
+    iterated; a list / str argument (pairs / ValueError) is NOT represented -/
+def dictE : PyVal → Res
+  | .dict kvs => .ok (.dict kvs)
+  | .list _ => .error (.raised "NotRepresented")
+  | .str _ => .error (.raised "NotRepresented")
+  | _ => .error (.raised "TypeError")
+
+/-- how ONE iteration of a `for` body that carries the variables `σ` (a tuple) ends: `next s` = it ran off its end or executed
+    `continue` with the variables at `s`; `brk s` = it executed `break` -/
+inductive Ctl (σ : Type) where
+  | next (s : σ)
+  | brk (s : σ)
+
+/-- `for x in xs: <body>` whose body carries SEVERAL variables (the tuple `σ`) and may `break` / `continue`: the body is run on the
+    items from left to right; `brk` ends the loop with the variables as they are, the first exception propagates -/
+def forLoop {σ : Type} (xs : List PyVal) (init : σ) (body : σ → PyVal → Except CondErr (Ctl σ)) : Except CondErr σ :=
+  match xs with
+  | [] => .ok init
+  | x :: rest => bind (body init x) fun c => match c with
+    | .next s => forLoop rest s body
+    | .brk s => .ok s
+
+/-- `try: <the only thing that can raise: x> except (C1, …): <handler>` followed by statements that are OUTSIDE the try: `x` is evaluated
+    under the handler; its value goes on into `k` (the rest of the try body and what follows the statement — nothing there is
+    protected: the translator accepts this shape only when the rest of the try body cannot raise), a caught exception into `handler`
+    (the handler's statements and what follows the statement), any other exception propagates -/
+def tryBind {β : Type} (x : Res) (classes : List String) (handler : Except CondErr β) (k : PyVal → Except CondErr β) :
+    Except CondErr β :=
+  match x with
+  | .ok v => k v
+  | .error e => if catches classes e then handler else .error e
 
 /-- how a translated STATEMENT RANGE of a function ends: `ret v` = it executed `return v`; `next` = control ran off its end
     (the range assigns nothing the rest of the function reads) -/
